@@ -66,7 +66,7 @@ func init() {
 		return r
 	}
 	checks["C09"] = &propCheck{
-		ID: "C09", Quick: valid(2, 1), Thorough: valid(3, 1),
+		ID: "C09", Quick: append(valid(2, 1), hrun{Harness: "vhC09GC", Params: P("AUTO", 0, "SIZES", 3, "TOPICS", 1), Covers: []string{"C09/GC/collected-something"}}), Thorough: valid(3, 1),
 		Labels: []string{"C09/"},
 		Bounds: map[string]string{
 			"quick":    "buffer length in {0,4}; every (count, head); TTL in [1, 2^40] ns, GCInterval in [-1, 2^41] ns, clock value and lastGC arbitrary 64-bit instants (now < 2^60, lastGC <= now or never); expiries arbitrary non-decreasing 64-bit instants <= now+TTL; one op of Put / Replay / GC with symbolic arguments; both ID modes. By induction: histories of any length within these buffer lengths (grow 0->4->8 occurs as a single Put).",
@@ -108,8 +108,10 @@ func init() {
 			{Harness: "vhC15RoundTrip", Params: P("CALLS", 1, "N", 2, "RETRY", 2), Covers: []string{"C15/roundtrip"}},
 			{Harness: "vhC15Writer", Params: P("CALLS", 1, "N", 1, "RETRY", 2), Covers: []string{"C15/writer-failed"}},
 			{Harness: "vhC15Retry", Params: P("RHIMS", 1000), Solver: "cvc5-int", Covers: []string{"C15/retry/written"}},
+			{Harness: "vhC15Long", Params: P("LONGMAX", 300)},
 		},
 		Thorough: []hrun{
+			{Harness: "vhC15Long", Params: P("LONGMAX", 5000)},
 			{Harness: "vhC15RoundTrip", Params: P("CALLS", 2, "N", 2, "RETRY", 2), Covers: []string{"C15/roundtrip", "C15/empty-message"}},
 			{Harness: "vhC15RoundTrip", Params: P("CALLS", 3, "N", 1, "RETRY", 0), Covers: []string{"C15/roundtrip"}},
 			{Harness: "vhC15Writer", Params: P("CALLS", 2, "N", 1, "RETRY", 2), Covers: []string{"C15/writer-failed"}},
@@ -131,14 +133,17 @@ func init() {
 			{Harness: "vhC02", Params: P("CALLS", 1, "N", 2, "MSGS", 1, "RETRY", 2), Covers: []string{"C02/some-data-event"}},
 			{Harness: "vhC02", Params: P("CALLS", 1, "N", 1, "MSGS", 2, "RETRY", 0), Covers: []string{"C02/some-data-event"}},
 			{Harness: "vhC15Retry", Params: P("RHIMS", 1000), Solver: "cvc5-int"},
+			{Harness: "vhC15Long", Params: P("LONGMAX", 300)},
+			{Harness: "vhC01SmallBufRead", Params: P("L", 16)},
 		},
 		Thorough: []hrun{
+			{Harness: "vhC15Long", Params: P("LONGMAX", 5000)},
 			{Harness: "vhC02", Params: P("CALLS", 2, "N", 2, "MSGS", 1, "RETRY", 2), Covers: []string{"C02/some-data-event"}},
 			{Harness: "vhC02", Params: P("CALLS", 1, "N", 3, "MSGS", 1, "RETRY", 0), Covers: []string{"C02/some-data-event"}},
 			{Harness: "vhC02", Params: P("CALLS", 1, "N", 1, "MSGS", 2, "RETRY", 2), Covers: []string{"C02/some-data-event"}},
 			{Harness: "vhC15Retry", Params: P("RFULL", 1), Solver: "cvc5-int"},
 		},
-		Labels: []string{"C02/", "C15/retry/"},
+		Labels: []string{"C02/", "C15/retry/", "C15/long/", "C01/SmallBuf"},
 		Bounds: map[string]string{
 			"quick":    "1 message with <=2 Append calls of strings <=1 byte or 1 call <=2 bytes, optional ID/type of the same bound, Retry boundary values; 2 concatenated messages with 1 call, strings <=1 byte; all 256 values per byte (CR, LF, colon, space, NUL, BOM bytes included)",
 			"thorough": "1 message: 2 calls <=2 bytes, 1 call <=3 bytes; 2 messages with Retry boundary values; retry field for every int64 duration",
@@ -168,8 +173,8 @@ func init() {
 
 	checks["C13"] = &propCheck{
 		ID: "C13",
-		Quick:    []hrun{{Harness: "vhC13", Params: P("K", 5), Covers: []string{"C13/dispatched", "C13/removed"}}, {Harness: "vhC01Conn", Params: P("N", 3, "SEG", 0), Covers: []string{"C01/Conn/some-event"}}},
-		Thorough: []hrun{{Harness: "vhC13", Params: P("K", 6), Covers: []string{"C13/dispatched", "C13/removed"}}, {Harness: "vhC01Conn", Params: P("N", 4, "SEG", 0), Covers: []string{"C01/Conn/some-event"}}},
+		Quick:    []hrun{{Harness: "vhC13", Params: P("K", 5, "TYPEKINDS", 1), Covers: []string{"C13/dispatched", "C13/removed"}}, {Harness: "vhC13", Params: P("K", 4, "TYPEKINDS", 3), Covers: []string{"C13/dispatched", "C13/removed"}}, {Harness: "vhC01Conn", Params: P("N", 3, "SEG", 0), Covers: []string{"C01/Conn/some-event"}}},
+		Thorough: []hrun{{Harness: "vhC13", Params: P("K", 5, "TYPEKINDS", 3), Covers: []string{"C13/dispatched", "C13/removed"}}, {Harness: "vhC13", Params: P("K", 6, "TYPEKINDS", 1), Covers: []string{"C13/dispatched", "C13/removed"}}, {Harness: "vhC01Conn", Params: P("N", 4, "SEG", 0), Covers: []string{"C01/Conn/some-event"}}},
 		Labels:   []string{"C13/", "lock-discipline/", "C01/Conn/events-equal-spec", "C01/Conn/event-count"},
 		Bounds: map[string]string{
 			"quick":    "every history of 5 operations from {SubscribeEvent(type: symbolic string <=1 byte), SubscribeMessages, SubscribeToAll, call any earlier remover (also repeatedly / stale after re-subscription), dispatch an event of symbolic type <=1 byte}; during each dispatch a second goroutine may call any remover at any callback boundary and completes iff it can take the lock; lock discipline of callbacks/callbacksAll/callbackID checked on every access; stream order -> dispatch order through Connection.read for all streams <=3 bytes",
@@ -191,6 +196,8 @@ func init() {
 		r = append(r, hrun{Harness: "vhC20Conn", Params: P("L", 3, "N", n-1, "SEG", seg, "BUFMAX", 2, "TWICE", 1), Covers: []string{"C20/Conn/too-long", "C20/Conn/all-fit"}})
 		// values stay intact across buffer compaction/refill
 		r = append(r, hrun{Harness: "vhC01SmallBufRead", Params: P("L", 16)}, hrun{Harness: "vhC01SmallBufConn", Params: P("L", 16)})
+		// a whole connection attempt reads no more than the limit from the body
+		r = append(r, hrun{Harness: "vhC20Connect", Params: P("L", 4)}, hrun{Harness: "vhC20Connect", Params: P("L", 16)})
 		return r
 	}
 	checks["C20"] = &propCheck{
@@ -214,6 +221,10 @@ func init() {
 			{Harness: "vhC01ReadTpl", Params: P("LINES", 1, "HOLE", 2), Covers: []string{"C01/ReadTpl/some-event"}},
 			{Harness: "vhC01ConnTpl", Params: P("LINES", 1, "HOLE", 2), Covers: []string{"C01/ConnTpl/some-event", "C01/ConnTpl/some-retry"}},
 			{Harness: "vhC01ReadTpl", Params: P("LINES", 2, "HOLE", 0), Covers: []string{"C01/ReadTpl/some-event"}},
+			{Harness: "vhC01ReadTpl", Params: P("LINES", 2, "HOLE", 0, "BYTEWISE", 1), Covers: []string{"C01/ReadTpl/some-event"}},
+			{Harness: "vhC01ConnTpl", Params: P("LINES", 2, "HOLE", 0, "BYTEWISE", 1, "PREFIXES", 1), Covers: []string{"C01/ConnTpl/some-event"}},
+			{Harness: "vhC01TwoEventsRead", Covers: []string{"C01/TwoEventsRead/some-event"}},
+			{Harness: "vhC01TwoEventsConn", Covers: []string{"C01/TwoEventsConn/some-event"}},
 			{Harness: "vhC01SmallBufRead", Params: P("L", 16), Covers: []string{"C01/SmallBufRead/some-event"}},
 			{Harness: "vhC01SmallBufConn", Params: P("L", 16), Covers: []string{"C01/SmallBufConn/some-event"}},
 			{Harness: "vhC01ConnTpl", Params: P("LINES", 3, "HOLE", 0, "NAMES", 2, "PREFIXES", 1), Covers: []string{"C01/ConnTpl/some-event"}},
@@ -245,6 +256,7 @@ func init() {
 			{Harness: "vhC11Connect", Params: P("A", 2, "CANCEL", 1, "BODYKINDS", 1, "TPLMASK", 7), Covers: []string{"C11/Connect/cancelled", "C11/Connect/retries-exhausted", "C11/Connect/validator-rejected"}, NoNative: true},
 			{Harness: "vhC11Connect", Params: P("A", 3, "CANCEL", 0, "BODYKINDS", 1, "TPLMASK", 1, "SENTINEL", 1, "TEMPVERDICT", 1), Covers: []string{"C11/Connect/retries-exhausted"}},
 			{Harness: "vhC11Connect", Params: P("A", 4, "CANCEL", 0, "BODYKINDS", 1, "TPLMASK", 1), Covers: []string{"C11/Connect/retries-exhausted"}},
+			{Harness: "vhC11Connect", Params: P("A", 3, "CANCEL", 0, "BODYKINDS", 5, "TPLMASK", 2), Covers: []string{"C11/Connect/body-reset-failed"}},
 			{Harness: "vhC11Connect", Params: P("A", 3, "CANCEL", 0, "BODYKINDS", 5, "TPLMASK", 9), Covers: []string{"C11/Connect/retries-exhausted", "C11/Connect/body-reset-failed"}},
 		},
 		Thorough: []hrun{
@@ -254,7 +266,7 @@ func init() {
 			{Harness: "vhC11ConnRead", Params: P("N", 5, "SEG", 1), Covers: []string{"C11/ConnRead/failing-reader"}},
 			{Harness: "vhC11ConnRead", Params: P("N", 8, "SEG", 0), Covers: []string{"C11/ConnRead/failing-reader"}},
 		},
-		Labels: []string{"C11/", "panic:"},
+		Labels: []string{"C11/", "C10/Connect/consumed-body", "C10/Connect/no-request-after-GetBody-failed", "C10/Connect/body-re-obtained", "C10/Connect/ErrNoGetBody", "C10/Connect/GetBody-error", "panic:"},
 		Bounds: map[string]string{
 			"quick":    "every stream <=4 bytes x every segmentation x {clean EOF, read error after the last byte, read error delivered together with the last bytes}; <=6 bytes in one chunk; the Connect loop against a scripted transport: scripts of <=2 attempts (each: transport failure / rejected response / 200 with one of 3 template streams ending cleanly or with a read error), MaxRetries in {-1,1,2}, cancellation before Do / at every byte offset of the body / while waiting for the retry timer; scripts of <=3 attempts without cancellation over 5 request-body kinds; scripts of <=3 attempts whose transport / read errors may be context.DeadlineExceeded / context.Canceled while the request context is live",
 			"thorough": "<=5 bytes x all segmentations; <=8 bytes in one chunk",
@@ -269,6 +281,7 @@ func init() {
 			{Harness: "vhC10Connect", Params: P("A", 3, "CANCEL", 0, "BODYKINDS", 1, "TPLMASK", 39), Covers: []string{"C10/Connect/header-sent"}},
 			{Harness: "vhC10Connect", Params: P("A", 3, "CANCEL", 0, "BODYKINDS", 5, "TPLMASK", 1), Covers: []string{"C10/Connect/getbody-failed"}},
 			{Harness: "vhC10Connect", Params: P("A", 3, "CANCEL", 0, "BODYKINDS", 5, "TPLMASK", 2, "MRCHOICES", 3), Covers: []string{"C10/Connect/header-sent"}},
+			{Harness: "vhC10Connect", Params: P("A", 2, "CANCEL", 0, "BODYKINDS", 1, "TPLMASK", 64), Covers: []string{"C10/Connect/header-sent"}},
 		},
 		Thorough: []hrun{
 			{Harness: "vhC10Connect", Params: P("A", 4, "CANCEL", 0, "BODYKINDS", 1, "TPLMASK", 39), Covers: []string{"C10/Connect/header-sent"}},
@@ -322,6 +335,9 @@ func init() {
 			joe("vhC06Joe", "NSUB", 2, "NMSG", 2, "NSHUT", 0, "CANCEL", 0, "TOPICS", 0),
 			joe("vhC06Joe", "NSUB", 2, "NMSG", 1, "NSHUT", 0, "CANCEL", 0, "TOPICS", 1),
 			joe("vhC06Joe", "NSUB", 2, "NMSG", 1, "NSHUT", 0, "CANCEL", 1, "CANCELN", 1, "TOPICS", 0),
+			// "Subscribe returns the subscriber's own ... replay error": what the real replayers return
+			{Harness: "vhC08Replay", Params: P("CAP", 2, "AUTO", 0, "TOPICS", 1)},
+			{Harness: "vhC09Replay", Params: P("AUTO", 1, "SIZES", 2, "TOPICS", 1, "MAXCOUNT", 2)},
 		},
 		Thorough: []hrun{
 			joe("vhC06Joe", "NSUB", 2, "NMSG", 1, "NSHUT", 0, "CANCEL", 1, "TOPICS", 0),
@@ -329,7 +345,7 @@ func init() {
 			joe("vhC06Joe", "NSUB", 1, "NMSG", 2, "NSHUT", 1, "CANCEL", 1, "TOPICS", 0),
 			joe("vhC06Joe", "NSUB", 2, "NMSG", 2, "NSHUT", 0, "CANCEL", 0, "TOPICS", 0),
 		},
-		Labels: []string{"C06/", "panic:"},
+		Labels: []string{"C06/", "C08/Replay/send-error", "C08/Replay/sends-before-failure", "C08/Replay/nothing-after-failure", "C08/Replay/flush-error", "C09/Replay/send-error", "C09/Replay/sends-before-failure", "C09/Replay/nothing-after-failure", "panic:"},
 		Bounds: map[string]string{
 			"quick":    "every interleaving of visible operations (channel send/receive/select/close; invisible steps commute) of: {1 subscriber, 1 message, cancellation of its context}, the same plus a Shutdown call, {2 subscribers, 1 message, Shutdown}, {1 subscriber, 1 message, cancellation, a replayer whose Put/Replay may fail or panic}, {1 subscriber, 3 messages}, {2 subscribers, 2 messages}; every Send and Flush may fail (symbolic outcome per call)",
 			"thorough": "{2 subscribers, 1 message, both cancellable}, {1 subscriber, 2 messages, cancellation, Shutdown}, {2 subscribers, 2 messages}",
@@ -348,6 +364,7 @@ func init() {
 			joe("vhC07Joe", "NSUB", 2, "NMSG", 1, "NSHUT", 1, "CANCEL", 0, "TOPICS", 0, "FAULTS", 1),
 			joe("vhC07Joe", "NSUB", 2, "NMSG", 0, "NSHUT", 0, "CANCEL", 1, "TOPICS", 0),
 			joe("vhC07Joe", "NSUB", 1, "NMSG", 3, "NSHUT", 1, "CANCEL", 0, "TOPICS", 0, "FAULTS", 1),
+			joe("vhC07Joe", "NSUB", 2, "NMSG", 1, "NSHUT", 1, "CANCEL", 1, "CANCELN", 1, "TOPICS", 0, "EMPTYTOPICS", 1),
 		},
 		Thorough: []hrun{
 			joe("vhC07Joe", "NSUB", 2, "NMSG", 1, "NSHUT", 2, "CANCEL", 0, "TOPICS", 0),
@@ -453,6 +470,8 @@ func init() {
 			{Harness: "vhC05", Params: P("MSGS", 2, "ATTEMPTS", 2, "AUTO", 1, "N", 0, "SMALLBUF", 24), Covers: []string{"C05/all-received", "C05/cut-mid-stream"}},
 			// "the server process survives every such cut": Joe under cancellation while publishing
 			joe("vhC06Joe", "NSUB", 1, "NMSG", 2, "NSHUT", 0, "CANCEL", 1, "TOPICS", 0),
+			// a cut session that the server has not noticed yet (its next write fails) next to a fresh one
+			joe("vhC17Joe", "NSUB", 2, "NMSG", 1, "NSHUT", 0, "CANCEL", 0, "TOPICS", 0, "REPLAYER", 1),
 		},
 		Thorough: []hrun{
 			{Harness: "vhC05", Params: P("MSGS", 2, "ATTEMPTS", 2, "AUTO", 0, "N", 2), Covers: []string{"C05/all-received"}},
@@ -460,7 +479,7 @@ func init() {
 			{Harness: "vhC05", Params: P("MSGS", 2, "ATTEMPTS", 3, "AUTO", 1, "N", 0), Covers: []string{"C05/all-received"}},
 			{Harness: "vhC05", Params: P("MSGS", 2, "ATTEMPTS", 2, "AUTO", 1, "N", 1, "VALID", 1), Covers: []string{"C05/all-received"}},
 		},
-		Labels: []string{"C05/", "C06/", "panic:"},
+		Labels: []string{"C05/", "C06/", "C17/", "panic:"},
 		Bounds: map[string]string{
 			"quick":    "2 messages (symbolic data <=1 byte incl. line breaks, optional symbolic type <=1 byte), every placement of their publication on the timeline {client away, while attempt 1 is connected, away, while attempt 2 is connected}, 2 connection attempts, the first cut at EVERY byte offset of the response body abruptly (read error) or, at message boundaries, by the handler returning; FiniteReplayer with automatic and manual IDs and ValidReplayer with manual IDs, capacity >= number of messages",
 			"thorough": "data <=2 bytes; 3 messages; 3 attempts (2 cuts)",
